@@ -17,6 +17,8 @@ class Real:
 
     @staticmethod
     def mul(a, b):
+        if sx.isinf(a) is False and sx.isinf(b) is False:
+            return sx.mul(a, b)            # finite operands: the product is already 0 when one is
         z = sx.Or(sx.eq(a, 0.0), sx.eq(b, 0.0))
         if z is True:
             return 0.0
@@ -75,6 +77,8 @@ class Viterbi:
 
     @staticmethod
     def mul(a, b):
+        if sx.isinf(a) is False and sx.isinf(b) is False:
+            return sx.add(a, b)
         z = sx.Or(sx.eq(a, -math.inf), sx.eq(b, -math.inf))
         if z is True:
             return -math.inf
